@@ -19,7 +19,7 @@ TECHNIQUE = "exhaustive enumeration of all token sequences up to length 3 (quick
 RULE = (
     "inputs: (1) every sequence of <=3 (quick) / <=4 (thorough) lexemes from the alphabet {lda nop .db .macro .if .for .map .struct .scope .text .include_ips identifier label: numbers ' 's' ;c /* */ { } {{ }} ( ) [ ] # , . .b = := *= @= "
     "+ - * << & | ~ newline space \\\\ \" NUL else}, joined with and without separating spaces; (2) every truncation, single deletion and single duplication, at token and (strided) character granularity, of generated valid programs and of "
-    "tests/samples/*.s; (3) Hypothesis token soup of <=60 lexemes and arbitrary unicode text; (4) thorough: atheris on parse and full assembly.  Oracle: MZParser.parse_as_ast and Program.assemble_string_with_emitter finish (result or any "
+    "tests/samples/*.s; (2b) structured programs nesting / chaining 8-64 deep, unbounded macro recursion, loops whose body writes the loop variable or the names its bounds came from; (3) Hypothesis token soup of <=60 lexemes and arbitrary unicode text; (4) thorough: atheris on parse and full assembly.  Oracle: MZParser.parse_as_ast and Program.assemble_string_with_emitter finish (result or any "
     "exception, including RecursionError) within 50,000 + 3,000*len(text) traced line events in a816/ and script/ frames (measured worst case ~155 events per character), expansion only when the literal loop counts bound it by 5,000 statements (+2,000 events per expanded statement, +4 M when macros are defined: recursion without a terminating condition is ended by the recursion limit).  "
     "Non-trivial = the input ends inside a construct (open comment / string / bracket / brace / macro header) or produces an error; distinct by input text."
 )
